@@ -171,7 +171,14 @@ func (p *Path) tryGuess(cons []*B, atomIDs, varIDs []int, key string) map[string
 		}
 		// linked integers follow their strings; others are drawn from their intervals
 		linked := map[int]bool{}
+		inQuery := map[int]bool{}
+		for _, id := range varIDs {
+			inQuery[id] = true
+		}
 		for _, l := range p.links {
+			if !inQuery[l.v] {
+				continue
+			}
 			sv := mm.nf(p.res(l.s))
 			if x, err := strconv.ParseInt(sv, 10, 64); err == nil {
 				m["v"+strconv.Itoa(l.v)] = "i" + strconv.FormatInt(x, 10)
